@@ -11,10 +11,10 @@ external("opaque.write_bytes", params={"self": "Opaque", "data": "bytes"}, modif
          exsures=[("OSError", None, "may", ["fs == old(fs)"])],
          ensures=["fs == store(old(fs), self, data)"],
          note="Path.write_bytes replaces exactly this file's content, or raises OSError leaving it unchanged (no partial-write model)")
-external("bytes.decode", params={"self": "bytes", "encoding": "str"}, returns="str", pure=True,
-         exsures=[("UnicodeDecodeError", "(encoding == 'utf-8' or encoding == 'utf8') and not decodable(self)", "iff")],
-         ensures=["implies(encoding == 'utf-8' or encoding == 'utf8', result == decode_utf8(self))"],
-         note="bytes.decode('utf-8'): total on decodable bytes, the inverse of the UTF-8 encoder; ANY OTHER codec (utf-8-sig, latin-1, ...) is "
+external("bytes.decode", params={"self": "bytes", "encoding": "str", "errors": "str"}, param_defaults={"errors": "strict"}, returns="str", pure=True,
+         exsures=[("UnicodeDecodeError", "(encoding == 'utf-8' or encoding == 'utf8') and errors == 'strict' and not decodable(self)", "iff")],
+         ensures=["implies((encoding == 'utf-8' or encoding == 'utf8') and (errors == 'strict' or decodable(self)), result == decode_utf8(self))"],
+         note="bytes.decode('utf-8'): total on decodable bytes, the inverse of the UTF-8 encoder; with errors != 'strict' it never raises and on undecodable bytes returns an unrelated string; ANY OTHER codec (utf-8-sig, latin-1, ...) is "
               "an unrelated uninterpreted function of (bytes, codec name)")
 external(_loc.qualname_of(_cst.parse_module), params={"source": "str", "config": "Opaque"}, returns="Opaque", pure=True, raises_any=True,
          ensures=["result.code == source"],
